@@ -469,7 +469,11 @@ def _bern(case, ctx, g):
     y = (util.rand(g, *b, n) > 0.5).double()
     with torch.no_grad():
         lm = lik.log_marginal(y, MVN(m, C))
-    ctx.close("bernoulli_marginal", lm, torch.where(y > 0.5, ref.log(), (1 - ref).log()), (1e-10, 1e-10), cls="bernoulli:log_marginal")
+    # P(y = 0) from its own tail (1 - P(y = 1) loses every digit when P(y = 1) is close to one)
+    ref0 = torch.tensor([0.5 * math.erfc(mm / math.sqrt(1 + vv) / math.sqrt(2)) for mm, vv in zip(m.reshape(-1).tolist(), v.reshape(-1).tolist())]).reshape(m.shape)
+    # decided in probability space: the marginal is REPRESENTED by its probability of one, so log P(y = 0) carries the rounding of
+    # 1 - p (absolute 1e-16 on p, i.e. relative 1e-16 / (1 - p) on the logarithm) -- false alarm of sweep 15, seed 3
+    ctx.close("bernoulli_marginal", lm.exp(), torch.where(y > 0.5, ref, ref0), (1e-14, 1e-10), cls="bernoulli:log_marginal")
     ctx.cell({k_: v_ for k_, v_ in case.items() if k_ != "seed"})
 
 
